@@ -41,7 +41,7 @@ impl Prop for C06 {
         300
     }
     fn cases(&self, t: Tier) -> usize {
-        t.pick(100_000, 3_000_000)
+        t.pick(200_000, 3_000_000)
     }
     fn generate(&self, t: &mut Tape) -> Case {
         let mut g = ArrGen::new(t);
